@@ -1,41 +1,72 @@
 ---------------------------- MODULE Trace_Extract ----------------------------
 (* C03: validation of recorded optimise-and-extract runs (library API and `quizx opt` CLI).
    circ    : the source circuit c; U0 = CircSem(c)
-   extract : to_graph -> simp -> Extractor(mode).extract() in one backend
+   extract : to_graph -> simp -> one way of extracting offered by the public API, in one backend.  Modes:
+               gflow / simple / perm / flow            Extractor::new + gflow() / gflow_simple_gauss() / gflow().up_to_perm() / flow()
+               simple_perm / perm_simple / flow_perm   up_to_perm() combined with the other two Gauss strategies (both call orders)
+               wg_simple / wg_single / wg_none / wg_custom   with_gaussf(f) with the pub strategies passed explicitly / a caller's function
+               to_circuit / to_circuit_mut / extractor_default / extractor_simple   the ToCircuit entry points
              L2 ExtractOK: result is Ok, on the same qubits, basic gates only (H, Z-phase, CZ, CNOT, SWAP),
-             and ProjEq(CircSem(out), U0) with a non-zero factor; in `perm` mode: for some permutation of
-             the input qubits
-   cli_opt : the printed QASM parsed back: exit 0, no panic, same contract *)
+             and ProjEq(CircSem(out), U0) with a non-zero factor; in the up-to-permutation modes: for some permutation of
+             the input qubits.
+             The property promises the Gauss-free flow extractor only after the flow strategy: flow-like modes after
+             clifford / full simplification are RECORDED (stats counters unpromised, unpromised_ok_equiv, ...), never judged.
+   cli_opt : expect = ok:     the printed QASM parsed back: exit 0, no panic, same contract
+             expect = reject: an invocation with nothing to print (two method flags, missing / unparsable input):
+                              L2 CliRejects: non-zero exit, no panic, no QASM printed, no output file *)
 EXTENDS TraceLib, ToGraph, FiniteSets, FiniteSetsExt
 VARIABLES l, c, u0, viol, drift, stats
 vars == <<l, c, u0, viol, drift, stats>>
 Init == l = 1 /\ c = [n |-> 0, gates |-> <<>>] /\ u0 = <<>> /\ viol = <<>> /\ drift = <<>>
-        /\ stats = [circuits |-> 0, extractions |-> 0, cli |-> 0, nontrivial |-> 0, smaller |-> 0]
+        /\ stats = [circuits |-> 0, extractions |-> 0, cli |-> 0, nontrivial |-> 0, smaller |-> 0,
+                    perm_modes |-> 0, entry_points |-> 0, explicit_gaussf |-> 0, cli_rejects |-> 0,
+                    unpromised |-> 0, unpromised_ok_equiv |-> 0, unpromised_ok_wrong |-> 0, unpromised_err |-> 0]
 ExtractKinds == {"HAD", "ZPhase", "CZ", "CNOT", "SWAP"}
 BasicOnly(o) == \A i \in 1..Len(o.gates) : o.gates[i].t \in ExtractKinds
 Perms(n) == {p \in [1..n -> 1..n] : \A i, j \in 1..n : i # j => p[i] # p[j]}
 Equivalent(o) == o.n = c.n /\ ~TIsZero(CircSem(o)) /\ ProjEq(CircSem(o), u0)
 EquivUpToPerm(o) == o.n = c.n /\ LET s == CircSem(o) IN
                     ~TIsZero(s) /\ \E p \in Perms(c.n) : ProjEq(Compose(PermTensor(c.n, p), c.n, c.n, s, c.n), u0)
+\* which modes answer up to a permutation, which use the Gauss-free (causal flow) extractor
+PermMode(m) == m \in {"perm", "simple_perm", "perm_simple", "flow_perm"}
+FlowMode(m) == m \in {"flow", "flow_perm", "wg_none"}
+\* the quantifier of C03: every strategy with the gflow extractors; the flow extractor with the flow strategy only
+Promised(simp, m) == FlowMode(m) => simp = "flow"
+ResultOK(e) == LET o == CircFromAbs(e.out) IN BasicOnly(o) /\ (IF PermMode(e.mode) THEN EquivUpToPerm(o) ELSE Equivalent(o))
+B(x) == IF x THEN 1 ELSE 0
 Step(e) ==
   CASE e.k = "circ" ->
          LET cc == CircFromAbs(e.c) IN c' = cc /\ u0' = CircSem(cc) /\ stats' = [stats EXCEPT !.circuits = @ + 1] /\ UNCHANGED <<viol, drift>>
     [] e.k = "extract" ->
-         IF e.res # "ok" THEN
+         IF ~Promised(e.simp, e.mode) THEN
+           \* not promised to succeed: what happened is counted; a panic or a non-terminating run is not data about C03 either
+           /\ stats' = [stats EXCEPT !.unpromised = @ + 1, !.unpromised_err = @ + B(e.res # "ok"),
+                                     !.unpromised_ok_equiv = @ + B(e.res = "ok" /\ ResultOK(e)),
+                                     !.unpromised_ok_wrong = @ + B(e.res = "ok" /\ ~ResultOK(e))]
+           /\ UNCHANGED <<c, u0, viol, drift>>
+         ELSE IF e.res # "ok" THEN
            /\ viol' = Append(viol, <<l, IF e.res = "error" THEN "ExtractionSucceeds" ELSE IF e.res = "timeout" THEN "Terminates" ELSE "NoPanic", e.simp, e.mode>>)
            /\ stats' = [stats EXCEPT !.extractions = @ + 1] /\ UNCHANGED <<c, u0, drift>>
          ELSE
            LET o == CircFromAbs(e.out)
-               ok == BasicOnly(o) /\ (IF e.mode = "perm" THEN EquivUpToPerm(o) ELSE Equivalent(o))
+               ok == ResultOK(e)
            IN /\ viol' = IF ok THEN viol ELSE Append(viol, <<l, "ExtractOK", e.simp, e.mode>>)
               /\ stats' = [stats EXCEPT !.extractions = @ + 1, !.nontrivial = @ + (IF Len(c.gates) > 0 THEN 1 ELSE 0),
-                                        !.smaller = @ + (IF Len(o.gates) < Len(c.gates) THEN 1 ELSE 0)]
+                                        !.smaller = @ + (IF Len(o.gates) < Len(c.gates) THEN 1 ELSE 0),
+                                        !.perm_modes = @ + B(PermMode(e.mode)),
+                                        !.entry_points = @ + B(e.mode \in {"to_circuit", "to_circuit_mut", "extractor_default", "extractor_simple"}),
+                                        !.explicit_gaussf = @ + B(e.mode \in {"wg_simple", "wg_single", "wg_none", "wg_custom"})]
               /\ UNCHANGED <<c, u0, drift>>
     [] e.k = "cli_opt" ->
-         /\ viol' = IF e.res # "ok" \/ e.panicked THEN Append(viol, <<l, "CliSucceeds", e.method, e.res>>)
-                    ELSE LET o == CircFromAbs(e.out) IN
-                         IF BasicOnly(o) /\ Equivalent(o) THEN viol ELSE Append(viol, <<l, "CliOutputOK", e.method>>)
-         /\ stats' = [stats EXCEPT !.cli = @ + 1] /\ UNCHANGED <<c, u0, drift>>
+         IF Has(e, "expect") /\ e.expect = "reject" THEN
+           /\ viol' = IF e.exit # 0 /\ ~e.panicked /\ ~e.printed_qasm /\ ~e.wrote_file THEN viol
+                      ELSE Append(viol, <<l, "CliRejects", e.method, e.exit>>)
+           /\ stats' = [stats EXCEPT !.cli = @ + 1, !.cli_rejects = @ + 1] /\ UNCHANGED <<c, u0, drift>>
+         ELSE
+           /\ viol' = IF e.res # "ok" \/ e.panicked THEN Append(viol, <<l, "CliSucceeds", e.method, e.res>>)
+                      ELSE LET o == CircFromAbs(e.out) IN
+                           IF BasicOnly(o) /\ Equivalent(o) THEN viol ELSE Append(viol, <<l, "CliOutputOK", e.method>>)
+           /\ stats' = [stats EXCEPT !.cli = @ + 1] /\ UNCHANGED <<c, u0, drift>>
 Next == \/ /\ l <= NLines /\ Step(Rec[l]) /\ l' = l + 1
         \/ /\ l = NLines + 1 /\ Report(l, viol, drift, stats) /\ l' = l + 1 /\ UNCHANGED <<c, u0, viol, drift, stats>>
 =============================================================================
